@@ -434,7 +434,13 @@ def purity(ctx, chk, only=None, strict=None):
         if only is not None and not any(label.startswith(p_) for p_ in only):
             continue
         try:
-            outs = ctx.explore(thunk, chk)
+            # the sweep reads effects, not values: scalar `if c: return a / return b` helpers called from the target are summarised
+            # as one selected value instead of one path per outcome (keeps guard-clause forms of the ratio properties from multiplying eer's paths)
+            ctx.ev.merge_scalar_returns = True
+            try:
+                outs = ctx.explore(thunk, chk)
+            finally:
+                ctx.ev.merge_scalar_returns = False
         except Exception as e:  # noqa: BLE001
             chk.unknown("R10.1", "%s: %s" % (label, str(e)[:160]))
             continue
